@@ -67,7 +67,11 @@ func runC15(tier string, seed uint64, out string) error {
 		cs.add(fmt.Sprintf("RtCase %s %d %s", coqBytes(rc.p), rc.seq, obsDec(enc)),
 			map[string]any{"kind": "roundtrip", "packet_len": len(rc.p), "seq": rc.seq}, "roundtrip", true)
 		// sampled single-byte damage, judged by the Coq checker
-		for k := 0; k < ndam; k++ {
+		nd := ndam
+		if len(rc.p) > 5000 {
+			nd = 6 // every case carries the whole record as a literal: keep the big ones few
+		}
+		for k := 0; k < nd; k++ {
 			i := r.intn(len(enc))
 			b := byte(r.u64())
 			if b == enc[i] {
@@ -80,7 +84,11 @@ func runC15(tier string, seed uint64, out string) error {
 		}
 		// every truncation length (sampled for long records)
 		for n := 0; n < len(enc); n++ {
-			if len(enc) > 40 && n > 14 && n < len(enc)-14 && !r.chance(1, 16) {
+			rate := 16
+			if len(enc) > 5000 {
+				rate = 2048
+			}
+			if len(enc) > 40 && n > 14 && n < len(enc)-14 && !r.chance(1, rate) {
 				continue
 			}
 			cs.add(fmt.Sprintf("TruncCase %s %d %s %s", coqBytes(rc.p), rc.seq, coqNat(n), obsDec(enc[:n])),
